@@ -464,6 +464,8 @@ func stackWaits(s *simrt.Sim) {
 	pushedVals := map[int]bool{}
 	next := 0
 	stop := false
+	var stopStep uint64 // the step at which the PopOrWait wait condition was turned off
+	var gaveUp []*ival  // PopOrWait calls that returned false
 	np := 1 + s.Choose(3)
 	for i := 0; i < np; i++ {
 		nops := 1 + s.Choose(4)
@@ -522,7 +524,10 @@ func stackWaits(s *simrt.Sim) {
 				iv.ok = ok
 				if ok {
 					popped[v]++
-				} else if !stop {
+				} else {
+					gaveUp = append(gaveUp, iv)
+				}
+				if !ok && !stop {
 					s.Fail("wait-safety", "poporwait-false", "PopOrWait returned false although the wait condition never failed")
 				}
 			}
@@ -539,6 +544,7 @@ func stackWaits(s *simrt.Sim) {
 				simrt.Yield()
 			}
 			stop = true
+			stopStep = s.Tick()
 			for _, w := range ws {
 				if w.kind == 3 && w.iv != nil && !w.done {
 					s.Probe("shutdown-signalled-while-poporwait-in-flight")
@@ -577,7 +583,10 @@ func stackWaits(s *simrt.Sim) {
 		}
 	}
 	// release PopOrWait waiters that are legitimately blocked on an empty stack
-	stop = true
+	if !stop {
+		stop = true
+		stopStep = s.Tick()
+	}
 	st.SignalShutdown()
 	left := s.Quiesce()
 	size := st.Size()
@@ -629,6 +638,26 @@ func stackWaits(s *simrt.Sim) {
 			}
 		}
 		return n
+	}
+	// PopOrWait gives up (false) only when it finds the stack empty and the wait condition off: some instant of the
+	// call, not before the condition was turned off, at which the stack can have been empty
+	for _, iv := range gaveUp {
+		from := max(iv.inv, stopStep)
+		pts := []uint64{from, iv.ret}
+		for _, e := range evs {
+			if e > from && e < iv.ret {
+				pts = append(pts, e)
+			}
+		}
+		possible := false
+		for _, t := range pts {
+			possible = possible || lower(t) < 1
+		}
+		if possible {
+			s.Probe("poporwait-gave-up-on-a-possibly-empty-stack")
+		} else {
+			s.Fail("wait-safety", "poporwait-false-on-a-non-empty-stack", "PopOrWait returned false in [%d,%d] although the stack held at least one element at every instant since the wait condition was turned off (step %d)", iv.inv, iv.ret, stopStep)
+		}
 	}
 	for i, w := range ws {
 		if w.kind == 3 {
